@@ -120,7 +120,10 @@ def st_case(draw, tier):
     g_amp = [[draw(st.integers(-8, 8)) / 4.0 for _ in range(M - 1)] for _ in range(P)]
     ab = [draw(st.integers(-12, 12)) / 4.0, draw(st.integers(-12, 12)) / 4.0]
     vmid = 0.0 if draw(st.sampled_from(["n"] * 11 + ["z"])) == "z" else draw(st.sampled_from([-1.0, 1.0])) * draw(st.integers(1, 99)) / 100.0
-    return {"kind": "moments", "gk": gk, "M": M, "N": N, "T0": T0,
+    # "every momentum scale" includes scales reached by rescaling an existing grid (as the wall solver
+    # does): with probability 1/3 the grid is built at another scale and rescaled to T0
+    rescale_from = draw(st.sampled_from([None, None, 0.4, 2.5, 10.0]))
+    return {"kind": "moments", "gk": gk, "M": M, "N": N, "T0": T0, "rescale_from": rescale_from,
             "basisM": draw(st.sampled_from(R.BASES)), "basisN": draw(st.sampled_from(R.BASES)),
             "particles": parts, "field": field, "family": fam, "qz": qz, "qp": qp, "amp": amp, "pp0": pp0,
             "g_z": g_z, "g_p": g_p, "g_amp": g_amp, "ab": ab, "vmid": float(vmid),
@@ -168,10 +171,13 @@ def build_solver(case):
     from WallGo.grid3Scales import Grid3Scales
 
     M, N, T0 = case["M"], case["N"], case["T0"]
+    Tbuild = T0 * float(case.get("rescale_from") or 1.0)
     if case["gk"] == "Grid3Scales":
-        grid = Grid3Scales(M, N, 3.0 / T0, 4.0 / T0, 1.0 / T0, T0, 0.5, 0.1, 0.0)
+        grid = Grid3Scales(M, N, 3.0 / T0, 4.0 / T0, 1.0 / T0, Tbuild, 0.5, 0.1, 0.0)
     else:
-        grid = Grid(M, N, 1.0 / T0, T0)
+        grid = Grid(M, N, 1.0 / T0, Tbuild)
+    if case.get("rescale_from"):
+        grid.changeMomentumFalloffScale(T0)
     particles = []
     for i, p in enumerate(case["particles"]):
         mu2, y2 = p["mu2"] * T0 ** 2, p["y2"]
@@ -256,7 +262,7 @@ def check_case(case) -> Verdict:
             "massive" if massive else "massless",
             "degz:fills_class" if len(case["qz"]) - 1 == 2 * N - 3 else "degz:beyond_grid" if len(case["qz"]) + 1 > N else "degz:grid",
             "degp:fills_class" if len(case["qp"]) - 1 == max(2 * N - 5, 1) else "degp:inside",
-            f"T0:1e{int(np.floor(np.log10(T0)))}",
+            f"T0:1e{int(np.floor(np.log10(T0)))}", "grid:rescaled" if case.get("rescale_from") else "grid:direct",
             "c0:zero" if tz[0] * tp[0] == 0 else "c0:nonzero",
             *{f"stat:{p['stat']}" for p in case["particles"]})
     cls = f"{fam} basis={case['basisM'][:4]}/{case['basisN'][:4]}"
